@@ -79,6 +79,7 @@ def run_case(cfg):
     nontrivial = ninst >= 20 and has_ras and has_wr
     m = cfg["mem"]
     sig = "|".join(str(x) for x in (m["cls"], m.get("speedgrade"), m["rate"], m["clk_freq"], cfg["workload"]["class"]))
+    st["history_sample"] = (W_ if "W_" in dir() else W).trace_sample(tr)
     return dict(verdict="violated" if v else "held", violations=v[:12], stats=st, nontrivial=nontrivial, signature=sig)
 
 
